@@ -4,6 +4,7 @@
 -/
 import InvProxy.Model.Blob
 import InvProxy.Proofs.Blob
+import InvProxy.Gen.Skels
 namespace InvProxy.C19
 open InvProxy InvProxy.Blob InvProxy.Gen
 
@@ -52,6 +53,43 @@ theorem every_named_part_is_put : store_everyNamedPartIsPut = true := by decide
 theorem exact_multiple_has_empty_last_part :
     store_partCount store_fieldByteLimit = 2 ∧ store_partBounds 1 store_fieldByteLimit = (store_fieldByteLimit, store_fieldByteLimit) := by
   decide
+
+/-! ### storage errors never leave a call hanging: the error channels of concurrent writers -/
+
+/-- `n` writer goroutines finish in some order; each sends at most one error (`true` = its write failed) into a
+    channel of capacity `cap` that is only read after all writers are done.  Result: (errors buffered, writers
+    blocked for ever in their send). -/
+def fanIn (cap : Nat) (fails : List Bool) : Nat × Nat :=
+  fails.foldl (fun (s : Nat × Nat) f => if f then (if s.1 < cap then (s.1 + 1, s.2) else (s.1, s.2 + 1)) else s) (0, 0)
+
+theorem fanIn_aux (cap : Nat) (fails : List Bool) (b : Nat) (h : b + fails.length ≤ cap) :
+    (fails.foldl (fun (s : Nat × Nat) f => if f then (if s.1 < cap then (s.1 + 1, s.2) else (s.1, s.2 + 1)) else s) (b, 0)).2 = 0 := by
+  induction fails generalizing b with
+  | nil => rfl
+  | cons f fs ih =>
+    simp only [List.foldl_cons, List.length_cons] at h ⊢
+    cases f with
+    | false => exact ih b (by omega)
+    | true =>
+      have hb : b < cap := by omega
+      simp only [hb, if_true]
+      exact ih (b + 1) (by omega)
+
+/-- one slot per writer: no writer ever blocks, whichever writes fail and in whatever order they finish -/
+theorem no_writer_blocks (cap : Nat) (fails : List Bool) (h : fails.length ≤ cap) : (fanIn cap fails).2 = 0 := by
+  unfold fanIn
+  exact fanIn_aux cap fails 0 (by omega)
+
+/-- with fewer slots than failing writers one of them blocks for ever (and `wg.Wait` with it) -/
+theorem too_few_slots_block : (fanIn 1 [true, true]).2 = 1 := by decide
+
+/-- regenerated facts: `writeBlobParts` gives its error channel one slot per part writer, and `postResponse`'s two
+    concurrent store writes report into a channel of capacity 2 (D11) - so by `no_writer_blocks` a storage error in
+    any subset of the concurrent writes still lets the call return -/
+theorem error_channels_have_a_slot_per_writer :
+    store_partErrsSlotPerWriter = true ∧
+    Skel.chanCap "notFoundErrs" skel_app_responseHandler = some 2 ∧
+    Skel.count (.wait "wg") skel_app_postResponse = 1 := by decide
 
 theorem limits : store_fieldByteLimit = 1000000 ∧ cache_cacheEntrySizeLimit = 1000000 := by decide
 
